@@ -1,5 +1,6 @@
 """C02 — well-formed code re-scans to the same tokens (structural clauses)."""
 import itertools
+import re
 
 from facts import norm, Origins
 from progress import dominating_variant_facts, bfs_path
@@ -268,6 +269,60 @@ def check_c02(prog, rep, tier, cfg):
                 if c[0] == "call" and c[1].endswith("is_ignored"):
                     arms.add("ignored" if c[3] else "normal")
         rep.check(arms == {"ignored", "normal"}, R, "flag-read-in-both-arms", "the safety-net flag is read in arms %s (must guard both the ignored and the normal emission)" % sorted(arms), instance={"arms": sorted(arms)})
+        # decision table of the whole emission step: on every path on which the flag may be set and the token may be something
+        # other than end-of-file, a line break is emitted before the token's text (unless the kept whitespace has one already)
+        ups = cl.j.get("upvars", [])
+        fk = [i for i, u in enumerate(ups) if "must_break" in str(u)]
+        if rep.check(len(fk) == 1, R, "anchor:flag-upvar", "captured flag not found among the closure's captures %s" % ups):
+            flag = "arg1.%d" % fk[0]
+            try:
+                tb = Table(prog, cl)
+            except Exception as e:  # loops or too many paths: fail closed
+                tb = None
+                rep.fail(R, "safety-net-table", "emission closure is not a loop-free classifier any more: %s" % e)
+            nrows = 0
+            badrows = []
+            for (cons, _res), calls in zip(tb.rows if tb else [], tb.calls if tb else []):
+                tt_is = {c[2] for c in cons if c[0] == "is" and c[1].startswith("get_token_type(")}
+                if tt_is == {"Eof"}:
+                    continue            # the only permitted exemption: nothing follows the end-of-file token
+                cd = {}
+                for c in cons:
+                    if c[0] == "cond":
+                        cd.setdefault(c[1], c[2])
+                if cd.get(flag) == 0:
+                    continue
+                ign = [v for k, v in cd.items() if k.startswith("is_ignored(")]
+                pushes = [(n.split("::")[-1], a) for n, a in calls if n.split("::")[-1] in ("push_str", "push", "for_each")]
+                def first_break_before_text():
+                    for n, a in pushes:
+                        if n == "push_str" and "get_newline_str(" in a[-1]:
+                            return True
+                        if n == "for_each" and a and re.match(r"Range\(0, [1-9]\d*\)$", a[0]):
+                            return True
+                        if n == "for_each" and a and a[0].startswith("Range(0, place:") and a[0].endswith(".newlines_before)"):
+                            continue      # decided below from the counter test
+                        return False
+                    return False
+                nrows += 1
+                if ign and ign[0] != 0:
+                    has_nl = [v for k, v in cd.items() if k.startswith("contains(get_leading_whitespace(")]
+                    if has_nl and has_nl[0] != 0:
+                        continue        # the kept whitespace already has a line break
+                    if not first_break_before_text():
+                        badrows.append(("ignored-arm", sorted(map(str, cons)), pushes[:2]))
+                else:
+                    zero = [v for k, v in cd.items() if re.match(r"Eq\(arg2\.1\.newlines_before,0\)", k)]
+                    if zero and zero[0] == 0:
+                        # counter is known to be non-zero: the counter's own line breaks are emitted
+                        if not (pushes and pushes[0][0] == "for_each" and pushes[0][1][0].endswith(".newlines_before)")):
+                            badrows.append(("normal-arm/non-zero-counter", sorted(map(str, cons)), pushes[:2]))
+                        continue
+                    if not first_break_before_text():
+                        badrows.append(("normal-arm", sorted(map(str, cons)), pushes[:2]))
+            rep.check(nrows >= 6 and not badrows, R, "safety-net-table",
+                      "on %d of %d emission paths with (flag possibly set, token possibly not Eof) no line break precedes the token text; first: %s" % (len(badrows), nrows, badrows[:1]),
+                      instance={"paths_with_obligation": nrows, "violating": [b[0] + ": " + "; ".join(b[1]) for b in badrows[:4]]})
         isb = prog.body(LANG + "CommentKind::is_singleline")
         if rep.check(isb is not None, R, "anchor:is_singleline", "CommentKind::is_singleline not found"):
             import parse_cov
